@@ -618,6 +618,30 @@ def run(tier):
               '(shared with C12.R4): the identity short cut of Node.__eq__ '
               'cannot make a rebuilt spine node look unchanged, so a '
               'designated node is never silently kept', sub12)
+    # substitute() keeps identity keys (ints) and structural keys (nodes)
+    # in one dict: the two kinds of key are kept apart by a node hashing as
+    # its data does (shared with C12.R3)
+    sub12b = Check('C12', 'other', tier, [], [])
+    chk.guard(c12.rule_r3, sub12b, prog)
+    chk.adopt('C11.R8', 'a node hashes as its data: an identity key never '
+              'meets a structurally keyed entry in the replacement map '
+              '(shared with C12.R3)', sub12b)
+    # "the one occurrence carrying a given identity": the inputs from which
+    # simplifications are generated have pairwise distinct identities
+    from . import c13, c05
+    sub13 = Check('C13', 'other', tier, [], [])
+    chk.guard(c13.rule_r1, sub13, prog)
+    chk.adopt('C11.R9', 'every input from which simplifications are '
+              'generated went through re-duplication: an identity-keyed '
+              'simplification designates exactly one position (shared with '
+              'C13.R1)', sub13)
+    # a simplification is applied to the input it was computed for
+    sub05 = Check('C05', 'other', tier, [], [])
+    chk.guard(c05.rule_r4, sub05, prog)
+    chk.adopt('C11.R10', 'the worker applies a simplification to the input '
+              'the task was generated from (cache keyed by the task\'s '
+              'base), so the designated identities exist in it (shared '
+              'with C05.R4)', sub05)
     extra = None
     if tier == 'thorough':
         from .. import selftest
